@@ -10,3 +10,6 @@ pub mod vx_axioms {
     pub broadcast axiom fn axiom_nonzero_u32_ext(a: core::num::NonZeroU32, b: core::num::NonZeroU32)
         ensures (#[trigger] a.get() == #[trigger] b.get()) <==> a == b;
 }
+/// `NonZeroU16::MIN` / `NonZeroU16::MAX` (std constants: 1 and 65535)
+#[verifier::external_body] pub fn vx_nz16_min() -> (r: core::num::NonZeroU16) ensures r.get() == 1 { core::num::NonZeroU16::MIN }
+#[verifier::external_body] pub fn vx_nz16_max() -> (r: core::num::NonZeroU16) ensures r.get() == 65535 { core::num::NonZeroU16::MAX }
